@@ -27,11 +27,16 @@
      C09_final_newline, C09_final_newline_read   with / without the final newline: same lines up
                          to the last terminator; same read;
      C09_rewrap_tokens   the normal engine is a function of the concatenated per-line token
-                         lists and of n_columns; C09_rewrap_data: for a WRAP=YES section the
-                         whole data-section read is the same when the reshape width is (it is
-                         the curve count whenever the file declares WRAP YES and the sniffed
-                         count is smaller or undetermined: C09_rewrap_width) and the sniffer
-                         recommends the same substitutions for both wrappings;
+                         lists and of n_columns; C09_rewrap_data / C09_rewrap_data_clean: for a
+                         WRAP=YES section the whole data-section read is the same when the
+                         reshape width is (C09_rewrap_width: it is the curve count whenever the
+                         file declares WRAP YES and the sniffed count is smaller or
+                         undetermined) and either the sniffer recommends the same substitutions
+                         or the substitutions fire on no line (C09_rewrap_clean_lines);
+     C09_rewrap_read     the WHOLE read of a file that says WRAP YES and declares >= m curves is
+                         unchanged when its data blocks are re-wrapped at any token boundaries
+                         (rewrap_rel m d: equal token streams under the file's delimiter d,
+                         substitutions fire on no line, counts sniffed on either wrapping < m);
      C09_redelimit_space the tokens of a SPACE-delimited line are its white-space separated
                          fields: any amount of blanks/tabs between and around them gives the
                          same tokens (lines without quotes / ^Z on which the substitutions do
@@ -46,9 +51,10 @@
                          along every finite chain (steps in either direction); instantiated
                          with the union of the generators above (pres_step).
    Partial / not claimed:
-     - C09_rewrap_data has the two hypotheses named above (same recommended substitutions,
-       same reshape width); a re-wrap that changes which sampled lines contain a '-' can
-       change the substitutions -- that is lasio's heuristic, checked by the correspondence.
+     - re-wrapping is proved on the domain named above; outside it (a wrapping on which a
+       run-on-hyphen / decimal-comma substitution fires, or whose physical lines all carry as
+       many values as there are curves or more) lasio's sniffing heuristics decide, and only
+       the correspondence checks those.
      - COMMA / TAB with padding blanks: the model identifies a numeric cell by its token text,
        so " 1" and "1" are different tokens although float() maps them to the same value; that
        equality is a fact about CPython's float (oracle fhex), exercised by the correspondence
@@ -59,7 +65,7 @@
 From Coq Require Import List Arith NArith Bool String.
 Import ListNotations.
 Require Import PyStr Regex NumLit Num Tables SectionParse Sections DataRead Read.
-Require Import RegexSubFacts SplitWsFacts StripFacts SectionsProofs JunkProofs ReadInvProofs ReadCongr BlocksCongr.
+Require Import RegexSubFacts SplitWsFacts StripFacts SectionsProofs JunkProofs ReadInvProofs ReadCongr BlocksCongr RewrapRead.
 Open Scope string_scope.
 Open Scope list_scope.
 Open Scope N_scope.
@@ -191,6 +197,36 @@ Theorem C09_rewrap_data : forall fhex fstr numeq o pw pn d b b' cs wd sn sn' sub
   data_core fhex fstr numeq o pw pn d b cs wd = data_core fhex fstr numeq o pw pn d b' cs wd.
 Proof. exact data_core_rewrap. Qed.
 
+Theorem C09_rewrap_data_clean : forall fhex fstr numeq o pw pn d b b' cs wd,
+  hval_is_str pw (s2l "YES") = true ->
+  (forall raw subs, In raw (b ++ b') -> apply_subs subs (strip raw) = strip raw) ->
+  n_columns_of (fst (inspect_twice d b (match d with DComma => comma_delim_subs | _ => default_subs end)))
+               (List.length (s_items cs)) wd =
+  n_columns_of (fst (inspect_twice d b' (match d with DComma => comma_delim_subs | _ => default_subs end)))
+               (List.length (s_items cs)) wd ->
+  List.concat (map (toks d []) b) = List.concat (map (toks d []) b') ->
+  data_core fhex fstr numeq o pw pn d b cs wd = data_core fhex fstr numeq o pw pn d b' cs wd.
+Proof. exact data_core_rewrap_clean. Qed.
+
+(* the whole read: data blocks re-wrapped (rewrap_rel m d: substitutions fire on no line, equal
+   token streams, sniffed counts below m), every other block untouched, in a file that says
+   WRAP YES and declares at least m curves *)
+Theorem C09_rewrap_read : forall fhex fstr numeq m d o t t' pre pre' bs bs',
+  lines_keep t = pre ++ render bs -> lines_keep t' = pre' ++ render bs' ->
+  notitles pre -> notitles pre' -> Forall wf_block bs -> Forall wf_block bs' ->
+  Forall2 (rewrap_block m d) bs bs' ->
+  (forall ps, first_pass o (lines_keep t)
+                (mkps (VFloat (s2l "2.0")) (VStr (s2l "YES")) None (VStr (s2l "SPACE")) empty_las [] [])
+                (find_sections (lines_keep t)) = inl ps ->
+     dlm_of (p_dlm ps) = Some d /\ hval_is_str (p_wrapped ps) (s2l "YES") = true /\ wrap_decl (p_las ps) = true /\
+     (m <= List.length (s_items (l_curves (p_las ps))))%nat) ->
+  read fhex fstr numeq o t = read fhex fstr numeq o t'.
+Proof. exact read_rewrap_blocks. Qed.
+
+Theorem C09_rewrap_clean_lines : forall b, forallb clean_line b = true ->
+  forall raw subs, In raw b -> apply_subs subs (strip raw) = strip raw.
+Proof. exact clean_lines_subs. Qed.
+
 Theorem C09_rewrap_width : forall sn nc,
   (match sn with Some n => (n < nc)%nat | None => True end) -> n_columns_of sn nc true = nc.
 Proof. exact n_columns_of_wrapped. Qed.
@@ -304,6 +340,52 @@ Example C09_ex_rewrap :
   DOk [ [CNum (s2l "1"); CNum (s2l "4")]; [CNum (s2l "2"); CNum (s2l "5")]; [CNum (s2l "3"); CNum (s2l "6")] ].
 Proof. split; vm_compute; reflexivity. Qed.
 
+(* a WRAP YES file with three curves, wrapped in two ways *)
+Definition ex_wrap_hdr : list block :=
+  [ (nl "~Version", [nl " VERS. 2.0 : v"; nl " WRAP. YES : w"]);
+    (nl "~Curve", [nl " DEPT.M : depth"; nl " A.V : a"; nl " B.V : b"]) ].
+Definition ex_wrap_a : list (list N) := [nl "1.0"; nl "2.0 3.0"; nl "4.0"; nl "5.0 6.0"].
+Definition ex_wrap_b : list (list N) := [nl "1.0 2.0"; nl "3.0"; nl ""; nl "4.0 5.0"; nl "6.0"].
+Definition ex_wrap_text (body : list (list N)) : list N :=
+  List.concat (render (ex_wrap_hdr ++ [(nl "~ASCII", body)])).
+Definition ex_normal : ropts := mkropts false CaseUpper false true false.
+
+Example C09_ex_rewrap_rel : rewrap_rel 3 DSpace ex_wrap_a ex_wrap_b.
+Proof.
+  split; [|split].
+  - intros raw subs Hin. apply (clean_lines_subs (ex_wrap_a ++ ex_wrap_b)); [vm_compute; reflexivity|exact Hin].
+  - vm_compute. reflexivity.
+  - vm_compute. split; exact I.
+Qed.
+
+Example C09_ex_rewrap_read :
+  read ex_fhex ex_fstr ex_numeq ex_normal (ex_wrap_text ex_wrap_a) =
+  read ex_fhex ex_fstr ex_numeq ex_normal (ex_wrap_text ex_wrap_b).
+Proof.
+  apply (read_rewrap_blocks ex_fhex ex_fstr ex_numeq 3 DSpace ex_normal _ _ [] []
+           (ex_wrap_hdr ++ [(nl "~ASCII", ex_wrap_a)]) (ex_wrap_hdr ++ [(nl "~ASCII", ex_wrap_b)])).
+  - vm_compute. reflexivity.
+  - vm_compute. reflexivity.
+  - reflexivity.
+  - reflexivity.
+  - repeat constructor.
+  - repeat constructor.
+  - repeat (apply Forall2_cons || apply Forall2_nil); (split; [reflexivity|]);
+      try (vm_compute; reflexivity).
+    match goal with |- match ?t with _ => _ end => let r := eval vm_compute in t in change t with r end; cbv iota.
+    right. exact C09_ex_rewrap_rel.
+  - intros ps H. vm_compute in H. injection H as <-. split; [vm_compute; reflexivity|]. split; [vm_compute; reflexivity|].
+    split; [vm_compute; reflexivity|]. vm_compute. repeat constructor.
+Qed.
+
+Example C09_ex_rewrap_value :
+  match read ex_fhex ex_fstr ex_numeq ex_normal (ex_wrap_text ex_wrap_b) with
+  | ROk l => l_data l = [ [CNum (s2l "1.0"); CNum (s2l "4.0")]; [CNum (s2l "2.0"); CNum (s2l "5.0")];
+                          [CNum (s2l "3.0"); CNum (s2l "6.0")] ]
+  | RErr _ => False
+  end.
+Proof. vm_compute. reflexivity. Qed.
+
 Example C09_ex_redelimit :
   split_ws (s2l "1.5   -2" ++ [9] ++ s2l "x ") = split_ws (s2l " 1.5 -2 x") /\
   toks DSpace default_subs (s2l "1.5   -2" ++ [9] ++ s2l "x ") = [s2l "1.5"; s2l "-2"; s2l "x"] /\
@@ -337,6 +419,9 @@ Print Assumptions C09_tokens_of_lines.
 Print Assumptions C09_rewrap_tokens.
 Print Assumptions C09_rewrap_data.
 Print Assumptions C09_rewrap_width.
+Print Assumptions C09_rewrap_data_clean.
+Print Assumptions C09_rewrap_read.
+Print Assumptions C09_rewrap_clean_lines.
 Print Assumptions C09_redelimit_space.
 Print Assumptions C09_redelimit_space_fields.
 Print Assumptions C09_redelimit_comma.
